@@ -41,6 +41,9 @@ func copyDevice(dst string, fi os.FileInfo) error {
 		rDev = int(st.Rdev)
 	}
 	mode := st.Mode
-	mode &^= syscall.S_IFSOCK // socket copied as stub
+	if mode&syscall.S_IFMT == syscall.S_IFSOCK {
+		// socket copied as stub
+		mode &^= syscall.S_IFSOCK
+	}
 	return mknod(dst, uint32(mode), rDev)
 }
